@@ -1,9 +1,10 @@
 ------------------------------- MODULE Trace_C14 -------------------------------
 (* C14: recorded histories of normalisation calls validated against Normalize.tla.
    kind "hist": [s0, steps : Seq([op, ft, ret, exc, st, forms]), eqv (1 when numbering independence is claimed for this history),
-                 f, t0, tsteps (the same calls on a renumbered twin)]
+                 f, t0, tsteps (the same calls on a renumbered twin), dom (projection for the symmetry domain of C01: canonical strings
+                 of molecules with only relatively defined ring configurations are outside that claim, and so is equivariance here)]
    kind "doc":  a documented spelling: [raw, want, got, same (1 when the standardised molecule == the documented one), hist fields] *)
-EXTENDS Normalize, Json
+EXTENDS Normalize, Json, Sym
 CONSTANT CH
 R == JsonDeserialize("data.json")
 N == Len(R)
@@ -15,7 +16,7 @@ HistVerdict(r) ==
   UNION { StepLaws(Pre(r, k), r.steps[k]) : k \in 1..Len(r.steps) }
   \cup UNION { Idempotence(Pre(r, k), r.steps[k], r.steps[k + 1]) \cup Inverse(Pre(r, k), r.steps[k], r.steps[k + 1]) : k \in 1..(Len(r.steps) - 1) }
   \cup UNION { IF r.steps[k].op = "tautomers" /\ r.steps[k].exc = "" THEN FormLaws(Pre(r, k), r.steps[k].forms) ELSE {} : k \in 1..Len(r.steps) }
-  \cup (IF r.eqv = 1 /\ Valid(r.s0)
+  \cup (IF r.eqv = 1 /\ Valid(r.s0) /\ InDomainC01(r.dom)
         THEN UNION { IF r.steps[k].exc # "" \/ r.tsteps[k].exc # "" THEN If(r.steps[k].exc # r.tsteps[k].exc, r.steps[k].op \o ":outcome-depends-on-numbering")
                      ELSE IF r.steps[k].op = "tautomers"
                           THEN If({ r.steps[k].forms[j].s : j \in 1..Len(r.steps[k].forms) } # { r.tsteps[k].forms[j].s : j \in 1..Len(r.tsteps[k].forms) }, "tautomers:set-depends-on-numbering")
